@@ -223,6 +223,7 @@ class Scope:
         self.oracles: set[str] = set()
         self.ret: int | None = None
         self.ret_elts: list[int] | None = None
+        self.fname = "?"
 
 
 class Translator:
@@ -235,11 +236,15 @@ class Translator:
         self.logged: list[str] = []
         self.self_locals: dict[str, int] = {}
         self.last_inline = (None, None)
+        self.cur_loc = "?"
 
     # -- helpers -----------------------------------------------------------
     def new_var(self, hint: str) -> int:
         self.var_names.append(hint)
         return len(self.var_names) - 1
+
+    def mkstore(self, x: int, ys: list):
+        return ("store", x, ys, self.cur_loc)
 
     def new_site(self, node, what: str, sc: Scope) -> int:
         self.sites.append(f"{sc.mod.path.name}:{getattr(node, 'lineno', 0)} {what}")
@@ -441,7 +446,7 @@ class Translator:
         def gen(i, acc):
             if i == len(e.generators):
                 v = self.expr(e.elt, sc, acc)
-                acc.append(("store", box, [v]))
+                acc.append(self.mkstore(box, [v]))
                 return
             g = e.generators[i]
             it = self.expr(g.iter, sc, acc)
@@ -486,7 +491,7 @@ class Translator:
                 out.append(("assign", t, ("proj", a)))
             return t
         if kind == "inplace":
-            out.append(("store", recv, [a for a in allargs if a != recv]))
+            out.append(self.mkstore(recv, [a for a in allargs if a != recv]))
             return self.tmp(out, ("alias", recv), "ip")
         raise AssertionError(kind)
 
@@ -507,7 +512,7 @@ class Translator:
             allargs = pos + list(kw.values()) + extra
             if "out" in kw:                    # op(..., out=x): writes x, returns x
                 o = kw["out"]
-                out.append(("store", o, [a for a in allargs if a != o]))
+                out.append(self.mkstore(o, [a for a in allargs if a != o]))
                 return self.tmp(out, ("alias", o), "out")
             if canon in ORACLE_CTORS or canon.startswith(FRESH_PREFIXES):
                 return self.fresh(out, e, sc, f"{canon}() oracle")
@@ -541,17 +546,17 @@ class Translator:
             what = f".{m}()"
             if "out" in kw:
                 o = kw["out"]
-                out.append(("store", o, [recv] + [a for a in allargs if a != o]))
+                out.append(self.mkstore(o, [recv] + [a for a in allargs if a != o]))
                 return self.tmp(out, ("alias", o), "out")
             if m == "copy":
                 return self.tmp(out, ("copy", self.new_site(e, what, sc), recv), "copy")
             if m.endswith("_") and not m.startswith("_"):
                 return self.apply_kind("inplace", e, sc, out, recv, [recv] + allargs, what)
             if m in STORE_METHODS:
-                out.append(("store", recv, allargs))
+                out.append(self.mkstore(recv, allargs))
                 return self.fresh(out, e, sc, what)
             if m in POP_METHODS:
-                out.append(("store", recv, allargs))
+                out.append(self.mkstore(recv, allargs))
                 return self.tmp(out, ("proj", recv), "pop")
             if m in PROJ_METHODS:
                 t = self.tmp(out, ("proj", recv), "get")
@@ -572,6 +577,7 @@ class Translator:
             self.bad(e, sc, "inlining too deep (recursion?)")
         self.inline_count += 1
         inner = Scope(mod, f"{fd.name}#{self.inline_count}.")
+        inner.fname = fd.name
         a = fd.args
         if a.vararg or a.kwarg or a.posonlyargs:
             self.bad(e, sc, f"{fd.name}: *args/**kwargs/positional-only parameters")
@@ -608,7 +614,9 @@ class Translator:
                     self.bad(e, sc, f"{fd.name}: parameter {p} not supplied")
                 out.append(("assign", pv, ("fresh", self.new_site(e, f"default/** for {p}", sc))))
         self.depth += 1
+        saved_loc = self.cur_loc
         self.function_body(fd, inner, out)
+        self.cur_loc = saved_loc
         self.depth -= 1
         self.last_inline = (id(e), inner.ret_elts)
         return inner.ret
@@ -651,7 +659,7 @@ class Translator:
         elif isinstance(t, ast.Subscript):
             base = self.expr(t.value, sc, out)
             self.index(t.slice, sc, out)
-            out.append(("store", base, [val]))
+            out.append(self.mkstore(base, [val]))
         elif isinstance(t, ast.Attribute):
             if isinstance(t.value, ast.Name) and t.value.id == "self" and sc.self_model is not None:
                 role = sc.self_model.get(t.attr, sc.self_model[None])
@@ -669,6 +677,7 @@ class Translator:
             self.bad(t, sc, f"unsupported assignment target {type(t).__name__}")
 
     def stmt(self, s, sc: Scope, out):
+        self.cur_loc = f"{sc.mod.path.name}:{s.lineno}:{sc.fname}"
         if isinstance(s, ast.Expr):
             if isinstance(s.value, ast.Constant):
                 return
@@ -698,15 +707,19 @@ class Translator:
             t = s.target
             if isinstance(t, ast.Name):
                 # in place for tensors / arrays / lists (a rebind for Python numbers: over-approximated)
-                out.append(("store", self.expr(t, sc, out), [v]))
+                out.append(self.mkstore(self.expr(t, sc, out), [v]))
             elif isinstance(t, ast.Subscript):
+                # x[k] op= v  is  e = x[k]; e = e.__iop__(v); x[k] = e : the element object is mutated
+                # in place (tensor / array / list elements) AND stored back into x
                 base = self.expr(t.value, sc, out)
                 self.index(t.slice, sc, out)
-                out.append(("store", base, [v]))
+                el = self.tmp(out, ("proj", base), "augsub")
+                out.append(self.mkstore(el, [v]))
+                out.append(self.mkstore(base, [el, v]))
             elif isinstance(t, ast.Attribute):
                 base = self.expr(t, sc, out)
-                out.append(("store", base, [v]))
-                out.append(("store", self.expr(t.value, sc, out), [base]))
+                out.append(self.mkstore(base, [v]))
+                out.append(self.mkstore(self.expr(t.value, sc, out), [base]))
             else:
                 self.bad(s, sc, "unsupported augmented assignment")
         elif isinstance(s, ast.Return):
@@ -748,7 +761,7 @@ class Translator:
         elif isinstance(s, ast.Delete):
             for t in s.targets:
                 if isinstance(t, ast.Subscript):
-                    out.append(("store", self.expr(t.value, sc, out), []))
+                    out.append(self.mkstore(self.expr(t.value, sc, out), []))
                 elif not isinstance(t, ast.Name):
                     self.bad(s, sc, "unsupported del")
         elif isinstance(s, ast.Raise):
@@ -780,6 +793,7 @@ class Translator:
     # -- one target --------------------------------------------------------
     def translate(self, mod: Module, fd: ast.FunctionDef, self_model):
         sc = Scope(mod, "", self_model)
+        sc.fname = fd.name
         out = []
         a = fd.args
         if a.vararg or a.kwarg:
@@ -872,6 +886,14 @@ def solve(body):
     return pts, hpts
 
 
+def offending_stores(fn):
+    """Source locations (file:line:function) of the in-place writes the certificate
+    says may hit a parameter.  Diagnostic: used by the check to decide whether a
+    rejection can be attributed to a known finding's source statement."""
+    pts, _ = solve(fn["body"])
+    return sorted({s[3] for s in flatten(fn["body"], []) if s[0] == "store" and any(q[0] == "P" for q in pts[s[1]])})
+
+
 def analysis_facts(fn):
     """What the (Python-side, untrusted) solution says; the harness uses the
     Coq-side report instead, this is for the translator self-test and notes."""
@@ -880,7 +902,7 @@ def analysis_facts(fn):
     for s in flatten(fn["body"], []):
         if s[0] == "store":
             written |= {q[1] for q in pts[s[1]] if q[0] == "P"}
-    return {"written_params": sorted(written)}
+    return {"written_params": sorted(written), "offending": offending_stores(fn)}
 
 
 # ----------------------------------------------------------------------------
